@@ -237,6 +237,7 @@ def scan_call_sites(ctx):
 
 
 def run_case(ctx, prog, script, idx, work, priv, det0):
+    """runs the program; returns None (could not be evaluated) or the data the batched model calls need"""
     n = script["n"]
     sp = os.path.join(work, "s%d.txt" % idx)
     open(sp, "w").write(script_text(script))
@@ -252,23 +253,24 @@ def run_case(ctx, prog, script, idx, work, priv, det0):
         ctx.mismatch("trace", err, case)
         return None
     inp = [0, NCELLS] + [x for c in range(NCELLS) for x in (c, INIT[c])] + ev
-    spec = fw.run_model("c36", "run_c36_spec", [inp])[0]
-    impl = fw.run_model("c36", "run_c36_impl", [inp])[0]
-    disc = fw.run_model("c36", "run_c36_disc", [inp])[0]
-    got = [x for r in reads for x in r]
-    ok = True
+    return {"case": case, "inp": inp, "got": [x for r in reads for x in r], "bad": bad}
+
+
+def judge(ctx, rec, spec, impl, disc):
+    case, got, bad = rec["case"], rec["got"], rec["bad"]
+    priv, n = case["privatization"], case["script"]["n"]
     if got != spec or bad:
-        ok = False
         k = next((i for i in range(0, min(len(got), len(spec)), 3) if got[i:i + 3] != spec[i:i + 3]), None)
         if k is not None:
             what = "rank %d reads %d in cell %d, its own last write (or the value MPI delivered to it) is %d" % (got[k], got[k + 2], got[k + 1], spec[k + 2])
         else:
             what = bad[0] if bad else "number of reads differs"
-        ctx.fail("foreign-value-" + priv, "privatization:%s%s, %d ranks: %s" % (priv, " (non-detached sends)" if det0 else "", n, what), case)
-    elif priv == "mmap" and (impl != spec or disc != [1]):
-        ok = False
+        ctx.fail("foreign-value-" + priv, "privatization:%s%s, %d ranks: %s" % (priv, " (non-detached sends)" if case["detached_thresh_0"] else "", n, what), case)
+        return False
+    if priv == "mmap" and (impl != spec or disc != [1]):
         ctx.mismatch("model-vs-run", "the model of the switching logic does not reproduce the observed reads on the observed interleaving (disciplined=%s)" % disc, case)
-    return ok
+        return False
+    return True
 
 
 def run(ctx):
@@ -285,11 +287,19 @@ def run(ctx):
         rp = json.load(open(ctx.replay))["case"]
         todo = [(rp["script"], rp["privatization"], rp["detached_thresh_0"])]
     else:
-        scripts = list(CORPUS) + [gen_script(ctx.rng, not ctx.quick) for _ in range(ctx.n(10, 150))]
+        scripts = list(CORPUS) + [gen_script(ctx.rng, not ctx.quick) for _ in range(ctx.n(10, 120))]
         todo = [(s, p, d) for s in scripts for p in ("mmap", "dlopen") for d in (False, True)]
     dist = {"mmap": 0, "dlopen": 0, "ranks": {}}
-    for idx, (s, priv, det0) in enumerate(todo):
-        r = run_case(ctx, prog, s, idx, work, priv, det0)
+    recs = [run_case(ctx, prog, s, idx, work, priv, det0) for idx, (s, priv, det0) in enumerate(todo)]
+    live = [r for r in recs if r is not None]
+    inputs = [r["inp"] for r in live]
+    if live:
+        specs = fw.run_model("c36", "run_c36_spec", inputs)
+        impls = fw.run_model("c36", "run_c36_impl", inputs)
+        discs = fw.run_model("c36", "run_c36_disc", inputs)
+        for r, sp_, im_, di_ in zip(live, specs, impls, discs):
+            r["verdict"] = judge(ctx, r, sp_, im_, di_)
+    for idx, ((s, priv, det0), r) in enumerate(zip(todo, recs)):
         dist[priv] += 1
         dist["ranks"][s["n"]] = dist["ranks"].get(s["n"], 0) + 1
         cells = {}
@@ -297,7 +307,8 @@ def run(ctx):
             if o[0] == 1:
                 cells.setdefault(o[2], set()).add(o[1])
         nontriv = r is not None and any(len(v) > 1 for v in cells.values())
-        ctx.case((json.dumps(s, sort_keys=True), priv, det0), nontriv, {"script": s, "privatization": priv, "verdict": r} if idx in (1, 5) else None)
+        ctx.case((json.dumps(s, sort_keys=True), priv, det0), nontriv,
+                 {"script": s, "privatization": priv, "verdict": r and r.get("verdict")} if idx in (1, 5) else None)
     shutil.rmtree(work, ignore_errors=True)
     ctx.cov["input_distribution"] = dist
     ctx.assumptions += ["hypothesis of C36_read_own_last_write, as call sites found in the current source: " + "; ".join(sites),
